@@ -4,6 +4,13 @@
                      triedb.Update + triedb.Commit when the root changed
      op  = (0 x<key> x<value>)       Update (empty value = Delete)
            (2 x<key>)                Get
+           (3 x<hexpath>)            GetNode(hexToCompact(path)) -> (0) nil | (1 x<blob>) | (2) error,
+                                     reported among the get results
+           (4 x<key>)                Prove(key)          no session effect (no observable)
+           (5)                       full NodeIterator walk, no session effect (no observable)
+                                     (4 and 5 run the hasher, which caches hashes in dirty nodes; only a later
+                                      GetNode on such a node could observe that — not modelled: the generator
+                                      emits them before the first Update of a session only)
    The store starts empty, the first root is the empty root.
    observation = ( genobs.. ), genobs =
      ( ( getresult.. ) x<root> nodeset dump dels pvs )
@@ -48,6 +55,16 @@ Fixpoint run_ops (sc : scheme) (s : store) (ss : sess) (ops : list sx) (gets : l
       | TOk (v, ss') => run_ops sc s ss' r (sopt SB v :: gets)
       | TErr e => Some (TErr e)
       end
+  | SL [SI 3%Z; SB path] :: r =>
+      let '(g, ss') := sess_getnode keccak256 sc s ss path in
+      run_ops sc s ss' r
+              (match g with
+               | GNone => SL [SI 0%Z]
+               | GItem b => SL [SI 1%Z; SB b]
+               | GErr => SL [SI 2%Z]
+               end :: gets)
+  | SL [SI 4%Z; SB _] :: r => run_ops sc s ss r gets
+  | SL [SI 5%Z] :: r => run_ops sc s ss r gets
   | _ => None
   end.
 
